@@ -1069,7 +1069,7 @@ func replayE2E(c *corr.Ctx, in *Input) {
 	case "e2e":
 		runSession(c, in.E2E, "replay")
 	case "multi":
-		runMultiCase(c, in.Multi, "replay")
+		runMultiCase(c, in.Multi, "multi-replay")
 	case "setup":
 		replaySetup(c, in)
 	case "client":
